@@ -26,6 +26,14 @@ class RegBench:
               "credential": reg.as_dict(), "id_text": reg.id_text, "type": reg.typ, "impl": il[:400]}
         if scn is not None:
             rp["scenario"] = scn.describe()
+        if (pol.require_uv is True or pol.require_uv is False) and (pol.require_up is True or pol.require_up is False):
+            import copy as _copy
+            p2 = _copy.copy(pol)
+            p2.require_uv, p2.require_up = (1 if pol.require_uv else 0), (1 if pol.require_up else 0)
+            as_int = impl.verify_reg(p2, val)
+            if as_int != il:
+                chk.violation(f"require_user_verification={p2.require_uv} / require_user_presence={p2.require_up} give another outcome than the booleans ({label}): {as_int[:50]} instead of {il[:50]}",
+                              f"policy-as-int reg {label.split('+')[0].split('/')[0]}", dict(rp, policy_as_int={"require_user_verification": p2.require_uv, "require_user_presence": p2.require_up}, outcome_as_int=as_int[:400]))
         if again != il:
             chk.violation(f"the same call repeated gives another outcome ({label}): {il[:50]} then {again[:50]}", f"repeat-call reg {label.split('+')[0].split('/')[0]}", dict(rp, second_outcome=again[:400]))
         if self.R:
